@@ -174,6 +174,41 @@ def main(argv=None):
                               {"kind": "direct", "text": t1, "permuted": t2, "permutation": "two blocks defining one name"})
         core.guarded(rep, t1, dup_case)
         rep.case(key=t1, nontrivial=True)
+    # directed: a state shared by two components (states("A", "B", x=...)), each of which gives its own, different dx_dt in its
+    # own block: whatever the verdict, it must not depend on which block stands first (nor may the generated dx_dt)
+    for i in range(3 if a.tier == "quick" else 40):
+        e1 = lang.render(gen.expr(["x", "y", "p"], 2), rng)
+        e2 = lang.render(("bin", "-", gen.expr(["x", "q"], 2), ("var", "q")), rng)
+        blocks = ['states("A", "B", x=1)\n', 'states("A", y=2)\n', 'parameters("A", p=0.5)\n', 'parameters("B", q=1.5)\n',
+                  f'expressions("A")\ndx_dt = {e1}\ndy_dt = p - y\n', f'expressions("B")\ndx_dt = {e2}\n']
+        t1 = "".join(blocks)
+        perms = [list(blocks)]
+        for _ in range(7):
+            pb = list(blocks)
+            rng.shuffle(pb)
+            perms.append(pb)
+
+        def shared_case(t1=t1, perms=perms):
+            outs = []
+            for pb in perms:
+                t = "".join(pb)
+                cc = pipeline.Case(drv, t)
+                if cc.err is not None:
+                    outs.append(("rejected", None, t))
+                else:
+                    try:
+                        outs.append(("accepted", impl.gen_python(cc.ode, schemes=["explicit_euler"]), t))
+                    except Exception as ex:  # noqa: BLE001
+                        outs.append(("rejected at generation", type(ex).__name__, t))
+            rep.count("shared_state_two_derivatives:" + outs[0][0])
+            for o in outs[1:]:
+                if o[0] != outs[0][0] or (o[0] == "accepted" and o[1] != outs[0][1]):
+                    rep.violation(f"a state shared by two components with a different dx_dt in each is {outs[0][0]} in one block order and "
+                                  f"{o[0]}{' with different code' if o[0] == outs[0][0] else ''} in another",
+                                  {"kind": "direct", "text": t1, "permuted": o[2], "permutation": "blocks of a text that defines the derivative of a shared state twice"})
+                    return
+        core.guarded(rep, t1, shared_case)
+        rep.case(key=t1, nontrivial=True)
     for i in range(n):
         got = family.new_case(drv, rng, gen, rep, n_comps=rng.choice([1, 2, 3, 3]), n_params=rng.choice([2, 3, 4]),
                               n_inters=rng.choice([2, 3, 4, 6]))
